@@ -6,9 +6,11 @@ import DudModel.Spec
 manifest entry `(isDir, sum)`, read off the store alone:
 * file entry: the checksum is well formed, the object is in the cache, and `n` is a regular file
   with exactly the object's bytes or a link to exactly that object;
-* directory entry: `n` is a directory, every entry of the manifest (the empty manifest if the
-  checksum is missing or not in the cache — this is what `dirArtifactStatus` does) is present and up
-  to date, and the listing has no entry the manifest does not name.
+* directory entry: the checksum is well formed and the manifest object is in the cache (a directory
+  whose manifest is not recorded, or recorded but absent from the cache, is never up to date —
+  `dirArtifactStatus` starts `ContentsMatch` from `HasChecksum && ChecksumInCache`), `n` is a
+  directory, every entry of that manifest is present and up to date, and the listing has no entry
+  the manifest does not name.
 `fuel` bounds the directory nesting exactly as in `dirStatus`.
 -/
 namespace Dud
@@ -18,7 +20,10 @@ variable {κ : Type}
 def FileOK (ctx : Ctx κ) (s : Store κ) (sum : Digest) (n : Node κ) : Prop :=
   hasSum sum = true ∧ ∃ o, s.get sum = some o ∧ (n = .file (o.bytes ctx) ∨ n = .link (.obj sum))
 
-/-- the manifest `dirArtifactStatus` compares against -/
+/-- the manifest `dirArtifactStatus` walks to build the child statuses: the stored manifest, or the
+empty one if the checksum is missing or not in the cache.  In the latter case the directory is *not*
+up to date whatever the walk finds (see `UpToDate`); this helper only describes which children get
+reported. -/
 def statusManifest (ctx : Ctx κ) (s : Store κ) (sum : Digest) : Except Err (List Child) :=
   if hasSum sum && s.has sum then readManifest ctx s sum else .ok []
 
@@ -26,7 +31,8 @@ def UpToDate (ctx : Ctx κ) (s : Store κ) : Nat → Bool → Digest → Node κ
   | 0, isDir, sum, n => if isDir then False else FileOK ctx s sum n
   | fuel + 1, isDir, sum, n =>
     if isDir then
-      ∃ es cs, n = .dir es ∧ statusManifest ctx s sum = .ok cs ∧
+      ∃ es cs, n = .dir es ∧ (hasSum sum = true ∧ s.has sum = true) ∧
+        readManifest ctx s sum = .ok cs ∧
         (∀ k ∈ cs, ∃ nk, alookup es k.name = some nk ∧ UpToDate ctx s fuel k.isDir k.sum nk) ∧
         (∀ e ∈ es, (findChild cs e.1).isSome = true)
     else FileOK ctx s sum n
